@@ -7,6 +7,7 @@ package main
 // Leg B:   random type compositions and values; recorded enc/dec calls judged by Wire_Trace (TLC).
 
 import (
+	"strings"
 	"bytes"
 	"encoding/json"
 	"fmt"
@@ -254,6 +255,7 @@ type wireDecEv struct {
 	Variant  int      `json:"variant"`
 	Like     any      `json:"like"`
 	Class    string   `json:"class"` // how the input was made (valid / which mutation)
+	CmpVal   bool     `json:"cmpval"`
 }
 
 func wireEncEvent(t wireType, variant int, v any) wireEncEv {
@@ -262,56 +264,44 @@ func wireEncEvent(t wireType, variant int, v any) wireEncEv {
 }
 func wireDecEvent(t wireType, variant int, in []byte, prior string, like any, plain bool, class string) wireDecEv {
 	r := wireDecode(t, variant, in, prior, like, plain)
-	return wireDecEv{K: "dec", Ty: t, Input: ints(in), Ok: r.Ok, Rn: int(r.Rn), Val: r.Val, Left: r.Left, Panicked: r.Panicked, Prior: prior, Plain: plain, Variant: variant, Like: normAbs(like), Class: class}
+	return wireDecEv{K: "dec", Ty: t, Input: ints(in), Ok: r.Ok, Rn: int(r.Rn), Val: r.Val, Left: r.Left, Panicked: r.Panicked, Prior: prior, Plain: plain, Variant: variant, Like: normAbs(like), Class: class, CmpVal: !strings.Contains(t.class(), "palcont")}
 }
 
 // wireJudge validates per-line traces; on rejection re-executes the recorded call and asks TLC again.
 func wireJudge(env *vk.Env, tr *vk.Trace, label, prop string) {
-	v, err := env.ValidateTrace(vk.TLCRun{Name: label, Module: "Wire_Trace", Cfg: "Wire_Trace.cfg", Workers: 6, Timeout: 25 * time.Minute, Heap: "8g"}, "trace.ndjson", tr.Bytes())
+	run := vk.TLCRun{Name: label, Module: "Wire_Trace", Cfg: "Wire_Trace.cfg", Workers: 8, Timeout: 25 * time.Minute, Heap: "8g", Continue: true}
+	v, err := env.ValidateTrace(run, "trace.ndjson", tr.Bytes())
 	if err != nil {
 		env.Infra("%s: %v", label, err)
 		return
 	}
-	env.Sub(map[string]any{"run": label, "events": tr.N, "accepted": v.Accepted})
-	if v.Accepted {
-		env.AddTraces(int64(tr.N))
-		env.AddEval(int64(tr.N))
-		return
-	}
-	if v.Res.Violated == "" {
+	env.Sub(map[string]any{"run": label, "events": tr.N, "accepted": v.Accepted, "rejected_lines": len(v.Res.Lines)})
+	if !v.Accepted && v.Res.Violated == "" {
 		env.Infra("%s: no verdict:\n%s", label, v.Res.Output)
 		return
 	}
-	// TLC stops at the first violated line; report it, drop it, and continue so that one known finding
-	// does not hide other violations (bounded number of rounds)
+	env.AddTraces(int64(tr.N - len(v.Res.Lines)))
+	env.AddEval(int64(tr.N))
+	if v.Accepted {
+		return
+	}
 	lines := bytes.Split(bytes.TrimSpace(tr.Bytes()), []byte("\n"))
-	for round := 0; round < 12; round++ {
-		ln := vk.FindVar(v.Res.Output, "l")
-		if ln < 1 || ln > len(lines) {
-			env.Infra("%s: rejected line not identified:\n%s", label, v.Res.Output)
-			return
+	seen := map[string]bool{}
+	for _, vl := range v.Res.Lines {
+		if vl.L < 1 || vl.L > len(lines) {
+			continue
 		}
-		sig, detail, again := wireRejudgeLine(env, lines[ln-1])
+		pre := wireLineSig(lines[vl.L-1])
+		if seen[pre] || len(seen) > 40 {
+			continue
+		}
+		seen[pre] = true
+		sig, detail, again := wireRejudgeLine(env, lines[vl.L-1])
 		if !again {
-			env.Infra("%s: rejection of line %d did not reproduce: %s", label, ln, vkTrunc(string(lines[ln-1]), 300))
-			return
+			env.Infra("%s: rejection of line %d did not reproduce: %s", label, vl.L, vkTrunc(string(lines[vl.L-1]), 300))
+			continue
 		}
-		env.Report(sig, v.Res.Violated+" violated by recorded call: "+detail, map[string]any{"kind": "line", "line": json.RawMessage(lines[ln-1])})
-		// remove every line of the same signature class, re-validate the rest
-		var rest [][]byte
-		for _, lb := range lines {
-			if wireLineSig(lb) != sig {
-				rest = append(rest, lb)
-			}
-		}
-		if len(rest) == 0 || len(rest) == len(lines) {
-			return
-		}
-		lines = rest
-		v, err = env.ValidateTrace(vk.TLCRun{Name: label + " (minus reported class)", Module: "Wire_Trace", Cfg: "Wire_Trace.cfg", Workers: 6, Timeout: 25 * time.Minute, Heap: "8g", NoCount: true}, "trace.ndjson", append(bytes.Join(lines, []byte("\n")), '\n'))
-		if err != nil || v.Accepted || v.Res.Violated == "" {
-			return
-		}
+		env.Report(sig, vl.Inv+" violated by recorded call: "+detail, map[string]any{"kind": "line", "line": json.RawMessage(lines[vl.L-1])})
 	}
 }
 
